@@ -146,4 +146,33 @@ example : (fileChunks 2 7 [⟨0, [1]⟩, ⟨1, [2]⟩, ⟨2, [3]⟩]).map (fun c
     = [(7, 0, 2), (7, 2, 3)] := by
   decide +kernel
 
+/-- "work split into at most n_processors lists of (file, r0, r1)": for
+`rows_at_a_time ≥ 1` and `n_processors ≥ 1` the assignment loop never fails;
+in particular the worker index of `work_load[i_worker]` never reaches
+`n_processors` (no IndexError), whatever the files and chunk size. -/
+theorem worksplit_in_range (files : List (Nat × List CellRec)) (rows nProc : Nat)
+    (hrows : 1 ≤ rows) (hproc : 1 ≤ nProc) :
+    ∃ loads, workSplit files rows nProc = .ok loads :=
+  workSplit_ok files rows nProc hrows hproc
+
+example : (workSplit [(0, [⟨0, [1]⟩, ⟨1, [2]⟩, ⟨2, [3]⟩]), (1, [⟨3, [4]⟩])] 1 2).toOption.map
+      (fun loads => loads.map List.length) = some [3, 1] := by
+  decide +kernel
+
+/-- "The values do not depend on how cells are spread over ... chunks or
+workers": the work loads handed to the workers are a partition of all chunks
+of all files: concatenated in worker order they are exactly the chunks
+`(data_path, r0, r1)` of the files in loop order, each once; there are at most
+`n_processors` loads and none is empty. -/
+theorem worksplit_partition (files : List (Nat × List CellRec)) (rows nProc : Nat)
+    (loads : List (List Chunk)) (h : workSplit files rows nProc = .ok loads) :
+    loads.flatten = files.flatMap (fun f => fileChunks rows f.1 f.2) ∧
+      loads.length ≤ nProc ∧ ∀ l ∈ loads, l ≠ [] :=
+  workSplit_spec files rows nProc loads h
+
+example : (workSplit [(0, [⟨0, [1]⟩, ⟨1, [2]⟩, ⟨2, [3]⟩]), (1, [⟨3, [4]⟩])] 1 3).toOption.map
+      (fun loads => loads.map (fun l => l.map (fun c => (c.file, c.r0, c.r1))))
+    = some [[(0, 0, 1), (0, 1, 2), (0, 2, 3)], [(1, 0, 1)]] := by
+  decide +kernel
+
 end CTM.C09
